@@ -456,6 +456,152 @@ theorem C11_real_still_idle_preserved {n : Nat} (s : System ℝ n) (hs : s.Still
             rw [a7, a8]; exact a5
           env := a6.1, envIdle := a6.2 }
 
+/-! ### the same through `System.callback` (the function the whole-system twin runs) -/
+
+theorem Trk.comps_of_compsOk {S E P : Type} {IS : S → Prop} {IE : E → Prop} (t : Trk ℝ S E P) :
+    Trk.Idle t → Trk.CompsOk IS IE t → (∀ x ∈ (Trk.comps t).1, IS x) ∧ (∀ e ∈ (Trk.comps t).2, IE e) := by
+  refine Trk.rec
+    (motive_1 := fun t => Trk.Idle t → Trk.CompsOk IS IE t → (∀ x ∈ (Trk.comps t).1, IS x) ∧ (∀ e ∈ (Trk.comps t).2, IE e))
+    (motive_2 := fun ts => Trk.IdleList ts → Trk.CompsOkList IS IE ts →
+      (∀ x ∈ (Trk.compsList ts).1, IS x) ∧ (∀ e ∈ (Trk.compsList ts).2, IE e)) ?_ ?_ ?_ t
+  · intro d c p ihc _ hi hc
+    obtain ⟨hd, hp, hcl⟩ := hi
+    subst hp
+    obtain ⟨i1, i2⟩ := ihc hcl hc.2
+    rw [Trk.comps]
+    simp only [hd.2.2.2.2.1, Trk.compsList, List.append_nil]
+    constructor
+    · intro x hx
+      rcases List.mem_append.mp hx with hx | hx
+      · exact hc.1.1 x hx
+      · exact i1 x hx
+    · intro e he
+      rcases List.mem_append.mp he with he | he
+      · exact hc.1.2 e he
+      · exact i2 e he
+  · intro _ _; simp [Trk.compsList]
+  · intro t ts iht ihts hi hc
+    obtain ⟨t1, t2⟩ := iht hi.1 hc.1
+    obtain ⟨l1, l2⟩ := ihts hi.2 hc.2
+    rw [Trk.compsList]
+    constructor
+    · intro x hx
+      rcases List.mem_append.mp hx with hx | hx
+      · exact t1 x hx
+      · exact l1 x hx
+    · intro e he
+      rcases List.mem_append.mp he with he | he
+      · exact t2 e he
+      · exact l2 e he
+
+theorem Trk.compsList_of_compsOk {S E P : Type} {IS : S → Prop} {IE : E → Prop} (ts : List (Trk ℝ S E P))
+    (hi : Trk.IdleList ts) (hc : Trk.CompsOkList IS IE ts) :
+    (∀ x ∈ (Trk.compsList ts).1, IS x) ∧ (∀ e ∈ (Trk.compsList ts).2, IE e) := by
+  induction ts with
+  | nil => simp [Trk.compsList]
+  | cons t ts ih =>
+    obtain ⟨t1, t2⟩ := Trk.comps_of_compsOk t hi.1 hc.1
+    obtain ⟨l1, l2⟩ := ih hi.2 hc.2
+    rw [Trk.compsList]
+    constructor
+    · intro x hx
+      rcases List.mem_append.mp hx with hx | hx
+      · exact t1 x hx
+      · exact l1 x hx
+    · intro e he
+      rcases List.mem_append.mp he with he | he
+      · exact t2 e he
+      · exact l2 e he
+
+/-- in a scene with nothing moving and nothing in flight no panic is latched anywhere -/
+theorem System.StillIdle.fault_none {n : Nat} {s : System ℝ n} (h : s.StillIdle) (hh : s.r.env.hung = false) :
+    s.fault = none := by
+  obtain ⟨c1, c2⟩ := Trk.compsList_of_compsOk s.r.mixer.subTracks h.idle.subs h.comps.subs
+  have hS : ∀ x ∈ (Mixer.comps s.r.mixer).1, x.fault = none := by
+    intro x hx
+    simp only [Mixer.comps, h.idle.main.2, h.idle.pending, Trk.compsList, List.append_nil] at hx
+    rcases List.mem_append.mp hx with hx | hx
+    · exact (h.comps.mainS x hx).1.1
+    · exact (c1 x hx).1.1
+  have hE : ∀ e ∈ (Mixer.comps s.r.mixer).2, e.fault = none := by
+    intro e he
+    simp only [Mixer.comps, h.idle.pendingSends, h.idle.pending, Trk.compsList, List.append_nil] at he
+    rcases List.mem_append.mp he with he | he
+    · rcases List.mem_append.mp he with he | he
+      · exact (h.comps.mainE e he).1.1
+      · obtain ⟨t, ht, het⟩ := List.mem_flatMap.mp he
+        exact (h.comps.sends t ht e het).1.1
+    · exact (c2 e he).1.1
+  unfold System.fault
+  have h1 : (Mixer.comps s.r.mixer).1.findSome? (·.fault) = none := by
+    rw [List.findSome?_eq_none_iff]; exact hS
+  have h2 : (Mixer.comps s.r.mixer).2.findSome? (·.fault) = none := by
+    rw [List.findSome?_eq_none_iff]; exact hE
+  simp only [h1, h2, hh]
+  rfl
+
+/-- a sequence of whole device callbacks through `System.callback` (which also reports latched panics / hangs) -/
+noncomputable def System.runDevice {n : Nat} (ch : Nat) : System ℝ n → List Nat → Except SysFault (System ℝ n × List ℝ)
+  | s, [] => .ok (s, [])
+  | s, f :: fs =>
+    match s.callback f ch with
+    | .error e => .error e
+    | .ok (s1, o1) =>
+      match System.runDevice ch s1 fs with
+      | .error e => .error e
+      | .ok (s2, o2) => .ok (s2, o1 ++ o2)
+
+/-- **No callback of such a scene panics or hangs, and `System.callback` sequences are the renderer's device
+    callbacks**: the theorems above are about the very function the whole-system twin runs. -/
+theorem C11_real_scene_callbacks_succeed {n : Nat} (ch : Nat) (hch : 1 ≤ ch) (cbs : List Nat) :
+    ∀ (s : System ℝ n), s.StillIdle → s.r.env.hung = false →
+      System.runDevice ch s cbs
+        = .ok ({ s with r := (Renderer.runDeviceCallbacks s.C s.V ch s.r cbs).1 },
+               (Renderer.runDeviceCallbacks s.C s.V ch s.r cbs).2) := by
+  induction cbs with
+  | nil => intro s _ _; rfl
+  | cons f fs ih =>
+    intro s hs hh
+    have h1 := C11_real_still_idle_preserved s hs ch [f]
+    have hrun : Renderer.runDeviceCallbacks s.C s.V ch s.r [f]
+        = ((Renderer.processLoop s.C s.V ch f (s.r.onStart s.C s.V) f).1,
+           (Renderer.processLoop s.C s.V ch f (s.r.onStart s.C s.V) f).2) := by
+      simp [Renderer.runDeviceCallbacks]
+    rw [hrun] at h1
+    have henv : (Renderer.processLoop s.C s.V ch f (s.r.onStart s.C s.V) f).1.env = s.r.env := by
+      have hV := SysEnv.step_still s.fuel
+      have hst : (s.r.onStart s.C s.V).env = s.r.env := SysEnv.start_idle _ hs.env hs.envIdle
+      have key : ∀ (fuel : Nat) (r : Renderer ℝ (SysSnd ℝ) (SysFx ℝ n) Unit (SysEnv ℝ)) (frames : Nat),
+          SysEnv.Still r.env → (Renderer.processLoop s.C s.V ch fuel r frames).1.env = r.env := by
+        intro fuel
+        induction fuel with
+        | zero => intro r frames _; rfl
+        | succ m ihm =>
+          intro r frames hr
+          simp only [Renderer.processLoop]
+          split
+          · rfl
+          · have e1 : (r.processChunk s.C s.V (min r.ibs frames) ch).1.env = r.env := hV r.env _ hr
+            rw [ihm _ _ (by rw [e1]; exact hr), e1]
+      rw [key f _ f (by rw [hst]; exact hs.env), hst]
+    have hh1 : (Renderer.processLoop s.C s.V ch f (s.r.onStart s.C s.V) f).1.env.hung = false := by
+      rw [henv]; exact hh
+    have hfault := System.StillIdle.fault_none h1 hh1
+    have hcb : s.callback f ch = .ok ({ s with r := (Renderer.processLoop s.C s.V ch f (s.r.onStart s.C s.V) f).1 },
+        (Renderer.processLoop s.C s.V ch f (s.r.onStart s.C s.V) f).2) := by
+      unfold System.callback Renderer.process
+      have hne : ¬ (s.r.onStart s.C s.V).ibs * ch = 0 := by
+        have : (s.r.onStart s.C s.V).ibs = s.r.ibs := rfl
+        rw [this]
+        have := hs.ibs
+        exact Nat.mul_ne_zero (by omega) (by omega)
+      simp only [hne, if_false]
+      rw [hfault]
+    rw [System.runDevice, hcb]
+    dsimp only
+    rw [ih _ h1 hh1]
+    simp [Renderer.runDeviceCallbacks]
+
 /-! ### non-vacuity: a concrete still scene -/
 
 /-- a low-pass filter as `FilterBuilder` makes it -/
